@@ -42,6 +42,13 @@ pub fn effects(p: &std::path::Path) -> std::io::Result<()> {
     std::fs::remove_file(p)
 }
 
+/// A partial write (`Write::write` may accept only part of the buffer) and an unlocked handle to stdout.
+pub fn short_write(out: &mut impl Write, data: &[u8]) -> std::io::Result<usize> {
+    let mut unlocked = std::io::BufWriter::new(std::io::stdout());
+    unlocked.write_all(data)?;
+    out.write(data)
+}
+
 pub fn spin(n: u32) -> u32 {
     let mut k = 0u32;
     loop {
